@@ -312,7 +312,7 @@ def r5_construction(a, tier):
         return ModelInterp(a, {'type': type, 'mangle': Hook(lambda s_: s_), **(extra or {})})
 
     # (a) untyped rule
-    me = Stub(SEM, _builder=Stub(BLD), config=Stub('tatsu.objectmodel.builder.BuilderConfig', basetype=object))
+    me = Stub(SEM, _builder=Stub(BLD, _registry={}, _find_existing_constructor=Hook(lambda *x, **k: None)), config=Stub('tatsu.objectmodel.builder.BuilderConfig', basetype=object))
     sentinel = {'k': 1}
     try:
         got = interp().call_fn(fn, [me, sentinel])
@@ -324,7 +324,7 @@ def r5_construction(a, tier):
                  f'untyped rules lose their value', fn.loc)
     # (b) typed rule: arguments of the instantiation
     inst: list = []
-    builder = Stub(BLD, _get_constructor=Hook(lambda name, base=None: type(name, (base,), {})),
+    builder = Stub(BLD, _registry={}, _find_existing_constructor=Hook(lambda *x, **k: None), _get_constructor=Hook(lambda name, base=None: type(name, (base,), {})),
                    _instanceof=Hook(lambda typename, known, *args, base=None, **kw: inst.append((typename, known, args, kw)) or 'NODE'))
     me = Stub(SEM, _builder=builder, builder=builder, config=Stub('tatsu.objectmodel.builder.BuilderConfig', basetype=object))
     got = interp().call_fn(fn, [me, sentinel, 'T::B', 'p1', 7], )
